@@ -143,6 +143,12 @@ impl TlsServer {
         Self { listener, port, config: Arc::new(config) }
     }
 
+    /// drop connections left over from an earlier case
+    pub fn drain(&self) {
+        _ = self.listener.set_nonblocking(true);
+        while self.listener.accept().is_ok() {}
+    }
+
     /// accept one connection and complete the TLS handshake (None: no connection / handshake failed)
     pub fn accept(&self, timeout: Duration) -> Option<TlsPeer> {
         self.listener.set_nonblocking(true).ok()?;
@@ -302,6 +308,8 @@ struct SshShared {
 struct SshHandler {
     shared: Arc<Mutex<SshShared>>,
     accept_password: Option<String>,
+    /// reject `password` authentication but offer (and accept) keyboard-interactive
+    kbdint_only: bool,
 }
 
 #[async_trait::async_trait]
@@ -310,8 +318,21 @@ impl russh::server::Handler for SshHandler {
 
     async fn auth_password(self, _user: &str, password: &str) -> Result<(Self, Auth), Self::Error> {
         self.shared.lock().unwrap().passwords_seen.push(password.to_string());
+        if self.kbdint_only {
+            return Ok((self, Auth::Reject { proceed_with_methods: Some(russh::MethodSet::KEYBOARD_INTERACTIVE) }));
+        }
         let ok = self.accept_password.as_deref().map_or(true, |p| p == password);
         Ok((self, if ok { Auth::Accept } else { Auth::Reject { proceed_with_methods: None } }))
+    }
+
+    async fn auth_keyboard_interactive(self, _user: &str, _submethods: &str, response: Option<russh::server::Response<'async_trait>>) -> Result<(Self, Auth), Self::Error> {
+        if !self.kbdint_only {
+            return Ok((self, Auth::Reject { proceed_with_methods: None }));
+        }
+        match response {
+            None => Ok((self, Auth::Partial { name: "".into(), instructions: "".into(), prompts: std::borrow::Cow::Owned(vec![("Password: ".into(), false)]) })),
+            Some(_) => Ok((self, Auth::Accept)),
+        }
     }
 
     async fn channel_open_session(self, channel: Channel<Msg>, session: SshSession) -> Result<(Self, bool, SshSession), Self::Error> {
@@ -357,7 +378,17 @@ impl SshServer {
     }
 
     /// accept one connection, run the SSH session in the background, wait for the netconf subsystem
+    /// drop connections left over from an earlier case
+    pub fn drain(&self) {
+        let listener = self.listener.clone();
+        self.rt.block_on(async move { while let Ok(Ok(_)) = tokio::time::timeout(Duration::from_millis(1), listener.accept()).await {} });
+    }
+
     pub fn accept(&self, timeout: Duration, accept_password: Option<String>) -> Option<SshPeer> {
+        self.accept_with(timeout, accept_password, false)
+    }
+
+    pub fn accept_with(&self, timeout: Duration, accept_password: Option<String>, kbdint_only: bool) -> Option<SshPeer> {
         let shared: Arc<Mutex<SshShared>> = Arc::default();
         let (listener, config, shared2) = (self.listener.clone(), self.config.clone(), shared.clone());
         let sock = self.rt.block_on(async move { tokio::time::timeout(timeout, listener.accept()).await.ok()?.ok() })?;
@@ -366,7 +397,7 @@ impl SshServer {
         let sock = self.rt.block_on(async { tokio::net::TcpStream::from_std(raw).ok() })?;
         _ = sock.set_nodelay(true);
         let task = self.rt.spawn(async move {
-            if let Ok(running) = russh::server::run_stream(config, sock, SshHandler { shared: shared2, accept_password }).await {
+            if let Ok(running) = russh::server::run_stream(config, sock, SshHandler { shared: shared2, accept_password, kbdint_only }).await {
                 _ = running.await;
             }
         });
